@@ -100,6 +100,16 @@ func (m *Machine) binop(op token.Token, tx, ty types.Type, x, y Value) Value {
 			} else if m.decide(Eq(yt, BV(yt.Sort.W, 0))) {
 				m.rtPanic("integer divide by zero")
 			}
+			// (y*k + c) / k = y and (y*k + c) % k = c when the intervals known on this path show that nothing
+			// wraps and 0 <= c < k: keeps "seconds*1000 + ms" / 1000 out of the solver
+			if yt.IsConst() && xt.Sort.W == 64 {
+				if q, r, ok := m.path.scaledBy(xt, yt.C, signed); ok {
+					if op == token.QUO {
+						return q
+					}
+					return BV(64, r)
+				}
+			}
 			if op == token.QUO {
 				if signed {
 					return BVBin(OpBVSDiv, xt, yt)
